@@ -3,6 +3,7 @@
   Property theorems only.  All statements quantify over every limb count and every operand.
 -/
 import CB.Lemmas.C06Cmp
+import CB.Lemmas.C06Num
 namespace CB.P06
 open CB CB.Cmp
 
@@ -212,5 +213,91 @@ theorem boxed_hash_incoherent :
 example : ult [0, 1] [WMAX, 1] = WMAX ∧ ucmp [0, 1] [WMAX, 1] = -1 ∧ ucmpVartime [0, 1] [WMAX, 1] = -1 := by decide
 example : ilt [0, HALF] [0, 0] = WMAX ∧ toInt [0, HALF] < toInt [0, 0] := by decide
 example : bctLt [5] [0, 1] = WMAX ∧ bcmp [7, 0, 0] [7] = 0 := by decide
+
+/-! ### T06.7 (coverage round) num-traits style zero / one tests and constructors, provided trait methods,
+    comparisons through `Odd` / `NonZero`, `ConstChoice ==` -/
+
+section coverage
+open CB.NumTests
+
+/-- `num_traits::Zero::is_zero` / `One::is_one` of `Uint` (= `ct_eq` with `ZERO` / `ONE`): the value is 0 / is 1. -/
+theorem num_is_zero_spec {a : List Nat} (ha : WF a) : isZeroNum a = mask (decide (val a = 0)) :=
+  isZeroNum_spec ha
+theorem num_is_one_spec {a : List Nat} (ha : WF a) (hne : a ≠ []) : isOneNum a = mask (decide (val a = 1)) :=
+  isOneNum_spec ha hne
+
+/-- the same tests on `Int` (they compare the inner `Uint`s) decide the SIGNED value. -/
+theorem int_num_is_zero_spec {a : List Nat} (ha : WF a) (hne : a ≠ []) :
+    isZeroNum a = mask (decide (toInt a = 0)) := int_isZeroNum_spec ha hne
+theorem int_num_is_one_spec {a : List Nat} (ha : WF a) (hne : a ≠ []) :
+    isOneNum a = mask (decide (toInt a = 1)) := by
+  obtain ⟨n, hn⟩ : ∃ n, a.length = n + 1 := by
+    cases a with
+    | nil => exact absurd rfl hne
+    | cons x xs => exact ⟨xs.length, rfl⟩
+  unfold isOneNum
+  rw [int_eq_spec ha (uone_WF _) (uone_length _).symm hne, hn, toInt_uone]
+
+/-- `Limb`: `is_zero` / `is_one`. -/
+theorem limb_num_tests_spec {x : Nat} (hx : x < B) :
+    limbIsZero x = mask (decide (x = 0)) ∧ limbIsOne x = mask (decide (x = 1)) :=
+  ⟨fromWordEq_spec hx (by decide), fromWordEq_spec hx (by decide)⟩
+
+/-- constructors: `zero()`, `one()`, `from_limb_like(l, _)` have the values 0, 1, `l` at the requested width. -/
+theorem constructors_spec {n l : Nat} (hn : 0 < n) (hl : l < B) :
+    (val (uzero n) = 0 ∧ (uzero n).length = n) ∧ (val (uone n) = 1 ∧ (uone n).length = n) ∧
+    (val (fromLimbLike n l) = l ∧ (fromLimbLike n l).length = n ∧ WF (fromLimbLike n l)) := by
+  obtain ⟨k, rfl⟩ : ∃ k, n = k + 1 := ⟨n - 1, by omega⟩
+  exact ⟨⟨val_uzero _, uzero_length _⟩, ⟨val_uone k, uone_length _⟩, fromLimbLike_spec hn hl⟩
+
+/-- provided methods `one_like`, `set_zero`, `zero_like`: the values 1 / 0 / 0 at the precision of the argument
+    (for `BoxedUint`, whose `set_zero` is its own loop, as well). -/
+theorem like_spec {a : List Nat} (hne : a ≠ []) :
+    (val (oneLike a) = 1 ∧ (oneLike a).length = a.length) ∧
+    (val (setZero a) = 0 ∧ (setZero a).length = a.length) ∧
+    (val (zeroLike a) = 0 ∧ (zeroLike a).length = a.length) ∧
+    bSetZero a = setZero a := by
+  have hpos : 0 < a.length := List.length_pos_iff.mpr hne
+  have h1 := fromLimbLike_spec hpos (show 1 < B by decide)
+  exact ⟨⟨h1.1, h1.2.1⟩, ⟨val_uzero _, uzero_length _⟩, ⟨val_uzero _, uzero_length _⟩, bSetZero_eq a⟩
+
+/-- `BoxedUint::is_zero` (the fold over `limb.is_zero()`) and `BoxedUint::is_one`, every limb count incl. none. -/
+theorem boxed_is_zero_spec (a : List Nat) : bIsZero a = if val a = 0 then 1 else 0 := bIsZero_spec a
+theorem boxed_is_one_spec {a : List Nat} (ha : WF a) : bIsOne a = if val a = 1 then 1 else 0 := bIsOne_spec ha
+theorem boxed_from_limb_like_spec {a : List Nat} {l : Nat} (hne : a ≠ []) (hl : l < B) :
+    val (bFromLimbLike l a) = l ∧ (bFromLimbLike l a).length = a.length :=
+  ⟨(fromLimbLike_spec (List.length_pos_iff.mpr hne) hl).1, (fromLimbLike_spec (List.length_pos_iff.mpr hne) hl).2.1⟩
+
+/-- the PROVIDED `ConstantTimeSelect::ct_assign` / `ct_swap` (built from `ct_select` alone) return exactly the chosen
+    operand(s), never a mixture. -/
+theorem default_assign_swap_spec {a b : List Nat} (p : Bool) (ha : WF a) (hb : WF b) (h : a.length = b.length) :
+    defaultCtAssign a b (mask p) = (if p then b else a) ∧
+    defaultCtSwap a b (mask p) = if p then (b, a) else (a, b) := by
+  refine ⟨uselect_spec p ha hb h, ?_⟩
+  show (uselect a b (mask p), uselect b a (mask p)) = _
+  rw [uselect_spec p ha hb h, uselect_spec p hb ha h.symm]
+  cases p <;> rfl
+
+/-- `Odd<T>::ct_eq`, `NonZero<T>::ct_eq`, `Uint == Odd<Uint>`, `Uint.partial_cmp(&Odd<Uint>)`: the order of the values. -/
+theorem wrapped_cmp_spec {a b : List Nat} (ha : WF a) (hb : WF b) (h : a.length = b.length) :
+    wrappedCtEq a b = mask (decide (val a = val b)) ∧ eqOdd a b = mask (decide (val a = val b)) ∧
+    cmpOdd a b = cmp3 (val a) (val b) :=
+  ⟨ueq_spec ha hb h, ueq_spec ha hb h, ucmp_spec ha hb h⟩
+/-- boxed twins, any two precisions -/
+theorem boxed_wrapped_cmp_spec {a b : List Nat} (ha : WF a) (hb : WF b) :
+    bWrappedCtEq a b = (if val a = val b then 1 else 0) ∧ bEqOdd a b = (if val a = val b then 1 else 0) ∧
+    bCmpOdd a b = cmp3 (val a) (val b) :=
+  ⟨bctEq_spec ha hb, bctEq_spec ha hb, bcmp_spec ha hb⟩
+
+/-- `ConstChoice: PartialEq` compares the mask words: equal exactly for equal truth values. -/
+theorem choice_eq_spec (p q : Bool) : choiceEq (mask p) (mask q) = (p == q) := by
+  cases p <;> cases q <;> decide
+
+example : isZeroNum [0, 0] = WMAX ∧ isZeroNum [0, 1] = 0 ∧ isOneNum [1, 0] = WMAX ∧ isOneNum [1, 1] = 0 := by decide
+example : bIsOne [1, 0, 0] = 1 ∧ bIsOne [1, 0, 1] = 0 ∧ bIsZero [0, 0] = 1 ∧ bIsOne [] = 0 := by decide
+example : defaultCtSwap [1, 2] [3, 4] WMAX = ([3, 4], [1, 2]) ∧ defaultCtSwap [1, 2] [3, 4] 0 = ([1, 2], [3, 4]) := by decide
+example : toInt [WMAX, WMAX] = -1 ∧ isOneNum [WMAX, WMAX] = 0 ∧ isZeroNum [WMAX, WMAX] = 0 := by decide
+
+end coverage
 
 end CB.P06
